@@ -1,6 +1,6 @@
 (* Correspondence cases for C19 (ACE interaction loop). *)
 From Coq Require Import List NArith ZArith Bool.
-From PyD Require Export Base.Str Model.Ace Corr.Common.
+From PyD Require Export Base.Str Model.Ace Model.SExpr Corr.Common.
 From PyD Require Import Proofs.AceP.
 Import ListNotations.
 
@@ -10,10 +10,26 @@ Definition resp_eqb (a b : response) : bool :=
   str_eqb (r_input a) (r_input b) && Bool.eqb (r_skipped a) (r_skipped b) &&
   list_eqb str_eqb (r_lines a) (r_lines b) && (r_skipped a || Nat.eqb (r_run a) (r_run b)).
 
+Fixpoint sx_eqb (a b : sx) : bool :=
+  match a, b with
+  | SInt x, SInt y => Z.eqb x y
+  | SStr x, SStr y => str_eqb x y
+  | SPair a1 a2, SPair b1 b2 => sx_eqb a1 b1 && sx_eqb a2 b2
+  | SList l1, SList l2 =>
+      (fix go (x y : list sx) : bool :=
+         match x, y with
+         | [], [] => true
+         | p :: x', q :: y' => sx_eqb p q && go x' y'
+         | _, _ => false
+         end) l1 l2
+  | _, _ => false
+  end.
+
 Inductive case :=
 | CAce (t : task) (tsdb : bool) (items : list (str * event)) (crash : Z)
        (resps : list response) (nruns : nat) (status : Z)
-| CValid (t : task) (datum : str) (sent : str).
+| CValid (t : task) (datum : str) (sent : str)
+| CSexpr (line : str) (res : option (list (str * sx))).     (* None = an exception other than IndexError *)
 
 Definition check_case (c : case) : bool :=
   match c with
@@ -29,4 +45,11 @@ Definition check_case (c : case) : bool :=
        (* the tsdb reader of the parser may already have restarted the processor *)
        || (negb (ps_alive st) && Nat.eqb (S (S (ps_run st))) nruns && Z.eqb 0 status))
   | CValid t datum sent => str_eqb (validate t datum) sent
+  | CSexpr line res =>
+      match sexpr_data (S (length line)) line, res with
+      | POk l, Some l' => list_eqb (pair_eqb str_eqb sx_eqb) l l'
+      | PFatal, None => true
+      | PUnmodelled, _ => true          (* floats *)
+      | _, _ => false
+      end
   end.
